@@ -90,6 +90,7 @@ def parse_vc(path):
         w = s.split()
         kw = w[0]
         if kw == 'unit': u.name = w[1]
+        elif kw == 'serves': u.serves = getattr(u, 'serves', []) + w[1:]
         elif kw == 'shim': u.shims += w[1:]
         elif kw == 'spec': u.specs += w[1:]
         elif kw == 'module':
